@@ -152,6 +152,9 @@ private:
     buffered_payload_type buffered_payload_;
     uint32_t seq_number_;
     uint32_t total_buffered_bytes_;
+    #ifdef TINS_VERIF_HOOKS
+    friend struct VerifDataTrackerCall;
+    #endif // TINS_VERIF_HOOKS
 };
 
 } // TCPIP
